@@ -48,19 +48,24 @@ mod kani_h {
         }
         kani::cover!(r.is_some() && (c as u32) > 0xFF);
     }
-    // C10 kernel: a character written as its UTF-8 bytes reads back through the reader's non-BOM (WinAnsi/PDFDoc) path
-    // only if it is ASCII; written as UTF-16BE with BOM it reads back for every char.
+    // C10 kernel: the main writer emits a text string as its UTF-8 bytes and the reader's non-BOM path decodes each byte
+    // with winansi_decode_char. A character therefore reads back unchanged iff utf8(c) is one byte b with decode(b) == c.
     #[kani::proof]
-    fn c10_text_kernel_utf8_vs_winansi() {
+    fn c10_text_kernel_ascii() {
         let c: char = kani::any();
+        kani::assume((c as u32) < 0x80);
         let mut buf = [0u8; 4];
         let n = c.encode_utf8(&mut buf).len();
-        if (c as u32) < 0x80 {
-            assert!(n == 1 && winansi_decode_char(buf[0]) == c);
-        } else {
-            // the defect, stated exactly: no non-ASCII character survives UTF-8-out / WinAnsi-in
-            assert!(!(n == 1 && winansi_decode_char(buf[0]) == c));
-        }
+        assert!(n == 1 && winansi_decode_char(buf[0]) == c);
+    }
+    // the same statement for every other character: expected to FAIL on the current tree (known finding KF-C10-utf8)
+    #[kani::proof]
+    fn c10_text_kernel_non_ascii() {
+        let c: char = kani::any();
+        kani::assume((c as u32) >= 0x80);
+        let mut buf = [0u8; 4];
+        let n = c.encode_utf8(&mut buf).len();
+        assert!(n == 1 && winansi_decode_char(buf[0]) == c);
     }
 }
 
